@@ -291,7 +291,22 @@ func init() {
 								return pop, nil
 							}
 						}
+						// a page of two with the total count, in both id directions and unsorted: the count is the store's population
+						pagedCount := func(st *schema.St) ([]string, error) {
+							pop := all
+							if st.Def.Parent != "" && !st.Def.Extended {
+								pop = mgrs
+							}
+							for _, text := range []string{"true sort by id desc limit 2", "true sort by id limit 2", "true limit 2", "true sort by id desc skip 1 limit 1", "limit 1"} {
+								_, n, err := st.Store.QueryIds(tx, text)
+								if err != nil || int(n) != len(pop) {
+									return nil, fmt.Errorf("%s: count %d err=%v, the store holds %d entities", text, n, err, len(pop))
+								}
+							}
+							return pop, nil
+						}
 						for _, qq := range []q{
+							{kmodel.Emps, "QueryIds(page of two, count)", all, pagedCount}, {kmodel.Mgrs, "QueryIds(page of two, count)", mgrs, pagedCount}, {kmodel.Ctrs, "QueryIds(page of two, count)", all, pagedCount},
 							{kmodel.Emps, "IterateIds + Seek", all, seekAll(false)}, {kmodel.Mgrs, "IterateIds + Seek", mgrs, seekAll(false)}, {kmodel.Ctrs, "IterateIds + Seek", all, seekAll(false)},
 							{kmodel.Emps, "IterateValidIds + Seek", all, seekAll(true)}, {kmodel.Mgrs, "IterateValidIds + Seek", mgrs, seekAll(true)}, {kmodel.Ctrs, "IterateValidIds + Seek", ctrs, seekAll(true)},
 							{kmodel.Emps, "QueryIds(true)", all, query}, {kmodel.Emps, "QueryIds()", all, queryEmpty}, {kmodel.Emps, "IterateIds", all, iter}, {kmodel.Emps, "IterateValidIds", all, iterValid},
